@@ -1,6 +1,7 @@
 import JominiModel.Proofs.TextTapeWf
 import JominiModel.Proofs.TextTapeScalars
 import JominiModel.Proofs.BinTapeWf
+import JominiModel.Proofs.TextDocFullContent
 /-
 C06 — Every successfully parsed tape is structurally sound.
 
